@@ -114,6 +114,9 @@ FIXED_CLASS_NAMES = [
     "L.\x00./.\x00./esc/Evil;", "L..\x00/sibling/Evil2;", "L\x00../x;", "La/.\x00./.\x00./.\x00./b;", "L\x00/x;", "La\x00b/c;",
     "La;/../../esc/Evil2;", "Lcom/example/Plain;/../../../../sibling/Evil3;", "La;b/../../x;", "L;/../x;", "La;/x;",
     "L\uff0e\uff0e/x;", "L\u2024\u2024/x;", "L..\t/x;", "L..\n/x;", "L%2e%2e/x;",
+    # siblings whose name merely BEGINS like the output directory ("out") or one of its parents ("b", "a"): inside by string prefix, outside by path
+    "L../outside/Evil;", "L../out.bak/q/Evil;", "Lp/../../out2/Evil;", "L../out-1/x;", "L../outer;", "L../out;", "L../out/x;", "L../../b2/x;",
+    "L../../b.old/out/x;", "L../../../a1/b/out/x;", "La/../../outx;",
 ]
 BENIGN_CLASS_NAMES = ["La/b/C;", "LTop;", "Lcom/example/deep/er/X$1;", "Lok/A;", "Lp/CON;", "Lp/a b;", "Lé/中;"]
 FIXED_METHOD_NAMES = [
@@ -145,6 +148,10 @@ def gen_cases(ctx):
     cases = []
     for n in FIXED_CLASS_NAMES:
         cases.append({"kind": class_kind(n), "classes": [{"name": n, "methods": ["m"]}], "hostile": n})
+    for n in FIXED_CLASS_NAMES:
+        if len(n) < 80:
+            # the optional graph output (-f) builds its own file names from the same class and method names
+            cases.append({"kind": class_kind(n), "classes": [{"name": n, "methods": ["m"]}], "hostile": n, "form": "raw"})
     for n in BENIGN_CLASS_NAMES:
         cases.append({"kind": "benign-names", "classes": [{"name": n, "methods": ["m", "<init>"]}], "hostile": None})
     cases.append({"kind": "benign-names", "classes": [{"name": n, "methods": ["m"]} for n in BENIGN_CLASS_NAMES[:4]], "hostile": None})
@@ -156,7 +163,7 @@ def gen_cases(ctx):
             cases.append(c)
     nrand = 400 if ctx.quick else 6000
     pools = {
-        "dotdot": ["..", "..", "a", "b", "x", "out"],
+        "dotdot": ["..", "..", "a", "b", "x", "out", "outside", "out.bak", "b2"],
         "dot": [".", "a", "b"],
         "empty": ["", "a", "b"],
         "long": ["a", LONG300, SEG255, SEG256],
@@ -165,7 +172,7 @@ def gen_cases(ctx):
         "special": ["..", ".\x00.", "..\x00", "\x00..", "a;", ";", "..;", "a", "esc", "b\x00"],
     }
     mpieces = ["..", ".", "", "x", "y", "zz", "a b", "..\\..", "...", "<init>", SEG255]
-    seen = set(json.dumps(c["classes"]) for c in cases)
+    seen = set(json.dumps(c["classes"]) + str(c.get("form")) for c in cases)
     tries = 0
     target = len(cases) + nrand
     while len(cases) < target and tries < nrand * 20:
